@@ -8,11 +8,12 @@ package database
 
 //verif:property C21
 //verif:bound VerifC21Checkpoints: 2 block headers (arbitrary height below 2^32, timestamp; 0..2 sup links each) with one checkpoint each (arbitrary status and timestamp); sequences of exactly N operations (quick N = 3, thorough N = 4 and, with 1 sup link, 5), each one of: read checkpoint A, read checkpoint B, read header A, save a new version of checkpoint A (arbitrary status / timestamp); headers served by a harness fill function
-//verif:bound VerifC21Headers (real Store from NewStore on a MemDB): one block header (height below 2^32, timestamp below 2^63) whose unhashed part (2-byte witness, 1 or 2 sup links with arbitrary source heights below 2^63) is re-saved with arbitrary new content of the same length, plus its checkpoint; every sequence of N operations (quick N = 3, and 4 with 1 sup link; thorough N = 4 with 2 sup links, 5 with 1) from {GetBlockHeader, SaveBlockHeader of a new version, GetCheckpoint, SaveCheckpoints of a new version}
+//verif:bound VerifC21Headers (real Store from NewStore on a MemDB): one block header (height below 2^32, timestamp below 2^63) whose unhashed part (2-byte witness, 1 or 2 sup links with arbitrary source heights below 2^63) is re-saved with arbitrary new content of the same length, plus its checkpoint; every sequence of N operations (quick N = 3, and 4 with 1 sup link; thorough N = 4 with 2 sup links, 5 with 1) from {GetBlockHeader, SaveBlockHeader of a new version, GetCheckpoint, SaveCheckpoints of a new version (arbitrary status, timestamp, one vote entry), the caller changing status / vote entry / rewards of the checkpoint object it saved last without saving again}
 //verif:bound VerifC21MainChain (real Store): two alternative chains of 2 headers at heights 1 and 2 with arbitrary timestamps; every sequence of N operations (quick N = 3, 4; thorough 5, 6) from {GetMainChainHash(1), GetMainChainHash(2), SaveChainStatus switching to the other chain with both headers, listed ascending or descending}
+//verif:bound VerifC21HeightIndex (real Store): height 1 with up to N blocks saved one after the other by the real SaveBlock; every sequence of N operations (quick N = 3, 4; thorough 5, 6) from {GetBlockHashesByHeight(1), SaveBlock of a further block at height 1, GetMainChainHash(1), SaveChainStatus putting the first block on the main chain}; the empty index and side-chain-only heights (main-chain read must fail as the database read does) are included
 //verif:assume VerifC21Checkpoints only: headers are immutable and served by a harness fill function that returns a fresh copy per call; the checkpoint fill function is the real getCheckpointFromDB on a real MemDB. The other two functions use the real fill functions (GetBlockHeader, GetMainChainHash, getCheckpointFromDB)
-//verif:assume solver side: json.Marshal / json.Unmarshal of state.Checkpoint are a handle table that keeps exactly the persisted fields (Parent and SupLinks carry json:"-"), json of the chain status record is an opaque constant; BlockHeader.MarshalText / UnmarshalText are a lossless handle table that builds fresh objects on every decode (the wire round trip is property C04); bc.Hash.MarshalText / UnmarshalText carry the 32 raw bytes; bc.Hash.String (protobuf text) and hex.EncodeToString (used only to form cache keys) are injective byte encodings; block header hashes are an uninterpreted collision-free function. The native replay uses the real ones
-//verif:outside singleflight under real concurrency, LRU eviction (capacities 256..2048 are not reached), block transactions / height index caches and SaveBlock, the utxo / contract part of SaveChainStatus (empty views here), re-saving a header with a different number of sup links, LevelDB
+//verif:assume solver side: json.Marshal / json.Unmarshal of state.Checkpoint are a handle table that keeps exactly the persisted fields (Parent and SupLinks carry json:"-"), json of the chain status record is an opaque constant, json of the height index ([]*bc.Hash) a handle table of hash values that builds a fresh list per decode; the header / transaction text SaveBlock stores (Block.MarshalTextForBlockHeader / MarshalTextForTransactions) is an opaque constant, not read back here; BlockHeader.MarshalText / UnmarshalText are a lossless handle table that builds fresh objects on every decode (the wire round trip is property C04); bc.Hash.MarshalText / UnmarshalText carry the 32 raw bytes; bc.Hash.String (protobuf text) and hex.EncodeToString (used only to form cache keys) are injective byte encodings; block header hashes are an uninterpreted collision-free function. The native replay uses the real ones
+//verif:outside singleflight under real concurrency, LRU eviction (capacities 256..2048 are not reached), the block-transactions cache and GetBlock, reading back the header SaveBlock stores, the utxo / contract part of SaveChainStatus (empty views here), re-saving a header with a different number of sup links, LevelDB
 //verif:override encoding/json.Marshal -> verifC21Marshal
 //verif:override encoding/json.Unmarshal -> verifC21Unmarshal
 //verif:override (*github.com/bytom/bytom/protocol/bc.Hash).String -> verifC21HashString
@@ -21,6 +22,8 @@ package database
 //verif:override (*github.com/bytom/bytom/protocol/bc/types.BlockHeader).UnmarshalText -> verifC21HeaderUnmarshal
 //verif:override (github.com/bytom/bytom/protocol/bc.Hash).MarshalText -> verifC21HashMarshal
 //verif:override (*github.com/bytom/bytom/protocol/bc.Hash).UnmarshalText -> verifC21HashUnmarshal
+//verif:override (*github.com/bytom/bytom/protocol/bc/types.Block).MarshalTextForBlockHeader -> verifC21BlockText
+//verif:override (*github.com/bytom/bytom/protocol/bc/types.Block).MarshalTextForTransactions -> verifC21BlockText
 //verif:obligation fn=VerifC21Checkpoints args=3,1 validate=10 secs=1800
 //verif:obligation fn=VerifC21Checkpoints args=3,0;3,2 secs=1800
 //verif:obligation fn=VerifC21Checkpoints args=4,0;4,1;4,2;5,1 tier=thorough secs=3000
@@ -30,6 +33,9 @@ package database
 //verif:obligation fn=VerifC21MainChain args=3 validate=20 secs=1800
 //verif:obligation fn=VerifC21MainChain args=4 secs=1800
 //verif:obligation fn=VerifC21MainChain args=5;6 tier=thorough secs=3000
+//verif:obligation fn=VerifC21HeightIndex args=3 validate=20 secs=1800
+//verif:obligation fn=VerifC21HeightIndex args=4 secs=1800
+//verif:obligation fn=VerifC21HeightIndex args=5;6 tier=thorough secs=3000
 
 import (
 	"bytes"
@@ -43,33 +49,68 @@ import (
 
 var verifC21Table []state.Checkpoint
 
+func verifC21CopyMap(m map[string]uint64) map[string]uint64 {
+	if m == nil {
+		return nil
+	}
+	c := make(map[string]uint64, len(m))
+	for k, v := range m {
+		c[k] = v
+	}
+	return c
+}
+
+var verifC21HashLists [][]bc.Hash
+
 func verifC21Marshal(v interface{}) ([]byte, error) {
-	if _, isStatus := v.(state.BlockStoreState); isStatus {
+	switch x := v.(type) {
+	case state.BlockStoreState:
 		return []byte{0xc3}, nil // chain status record: written by SaveChainStatus, not read here
+	case []*bc.Hash:
+		// the height index: a list of hash values
+		var l []bc.Hash
+		for _, h := range x {
+			l = append(l, *h)
+		}
+		verifC21HashLists = append(verifC21HashLists, l)
+		return []byte{0xc6, byte(len(verifC21HashLists) - 1)}, nil
+	case *state.Checkpoint:
+		c := *x
+		c.Parent, c.SupLinks = nil, nil // json:"-"
+		c.Rewards, c.Votes = verifC21CopyMap(x.Rewards), verifC21CopyMap(x.Votes)
+		verifC21Table = append(verifC21Table, c)
+		return []byte{0xc2, byte(len(verifC21Table) - 1)}, nil
 	}
-	cp, ok := v.(*state.Checkpoint)
-	if !ok {
-		panic("verif: json.Marshal stub: unexpected type")
-	}
-	c := *cp
-	c.Parent, c.SupLinks = nil, nil // json:"-"
-	verifC21Table = append(verifC21Table, c)
-	return []byte{0xc2, byte(len(verifC21Table) - 1)}, nil
+	panic("verif: json.Marshal stub: unexpected type")
 }
 
 func verifC21Unmarshal(data []byte, v interface{}) error {
-	cp, ok := v.(*state.Checkpoint)
-	if !ok {
-		panic("verif: json.Unmarshal stub: unexpected type")
+	switch x := v.(type) {
+	case *[]*bc.Hash:
+		if len(data) != 2 || data[0] != 0xc6 {
+			return errors.New("verif: not a hash list handle")
+		}
+		l := []*bc.Hash{}
+		for _, h := range verifC21HashLists[int(data[1])] {
+			hc := h
+			l = append(l, &hc)
+		}
+		*x = l
+		return nil
+	case *state.Checkpoint:
+		if len(data) != 2 || data[0] != 0xc2 {
+			return errors.New("verif: not a handle")
+		}
+		t := verifC21Table[int(data[1])]
+		x.Height, x.Hash, x.ParentHash, x.Timestamp, x.Status = t.Height, t.Hash, t.ParentHash, t.Timestamp, t.Status
+		x.Rewards, x.Votes = verifC21CopyMap(t.Rewards), verifC21CopyMap(t.Votes)
+		return nil
 	}
-	if len(data) != 2 || data[0] != 0xc2 {
-		return errors.New("verif: not a handle")
-	}
-	t := verifC21Table[int(data[1])]
-	cp.Height, cp.Hash, cp.ParentHash, cp.Timestamp, cp.Status = t.Height, t.Hash, t.ParentHash, t.Timestamp, t.Status
-	cp.Rewards, cp.Votes = t.Rewards, t.Votes
-	return nil
+	panic("verif: json.Unmarshal stub: unexpected type")
 }
+
+// SaveBlock also stores the header and transaction text of the block; neither is read back here
+func verifC21BlockText(b *types.Block) ([]byte, error) { return []byte{0xc5}, nil }
 
 func verifC21HashString(h *bc.Hash) string { return string(h.Bytes()) }
 
@@ -254,16 +295,25 @@ func VerifC21Headers(nOps int, nSup int) {
 		return h.Hash()
 	}
 	hash := saveHeader()
+	var saved *state.Checkpoint // the caller's object of the last SaveCheckpoints
 	saveCheckpoint := func() {
-		cp := &state.Checkpoint{Height: base.Height, Hash: hash, Timestamp: verifU64("cp.timestamp"), Status: state.CheckpointStatus(verifU8("cp.status"))}
+		cp := &state.Checkpoint{Height: base.Height, Hash: hash, Timestamp: verifU64("cp.timestamp"), Status: state.CheckpointStatus(verifU8("cp.status")),
+			Votes: map[string]uint64{"validator": verifU64("cp.votes")}, Rewards: map[string]uint64{}}
 		if err := s.SaveCheckpoints([]*state.Checkpoint{cp}); err != nil {
 			panic("verif: SaveCheckpoints failed")
 		}
+		saved = cp
 	}
 	saveCheckpoint()
 
 	for op := 0; op < nOps; op++ {
-		switch verifChoice("op", 4) {
+		switch verifChoice("op", 5) {
+		case 4:
+			// the caller keeps working on the checkpoint it saved, without saving again
+			saved.Status = state.CheckpointStatus(verifU8("cp.status"))
+			saved.Votes["validator"] = verifU64("cp.votes")
+			saved.Rewards["program"] = 1
+			verifReach("VerifC21Headers:caller-object-changed")
 		case 0:
 			got, err := s.GetBlockHeader(&hash)
 			verifAssert(err == nil, "header-read-succeeds")
@@ -303,6 +353,9 @@ func VerifC21Headers(nOps int, nSup int) {
 			verifAssert(got.Hash == fresh.Hash, "checkpoint-read-equals-fresh-identity")
 			verifAssert(got.Timestamp == fresh.Timestamp, "checkpoint-read-equals-fresh-timestamp")
 			verifAssert(got.Status == fresh.Status, "checkpoint-read-equals-fresh-status")
+			verifAssert(len(got.Votes) == len(fresh.Votes), "checkpoint-read-equals-fresh-votes")
+			verifAssert(got.Votes["validator"] == fresh.Votes["validator"], "checkpoint-read-equals-fresh-votes")
+			verifAssert(len(got.Rewards) == len(fresh.Rewards), "checkpoint-read-equals-fresh-rewards")
 			verifC21SameLinks(got.SupLinks, freshHeader.SupLinks, "checkpoint-read-equals-fresh-suplinks", "checkpoint-read-suplink-content")
 			verifReach("VerifC21Headers:checkpoint-read")
 		case 3:
@@ -361,6 +414,68 @@ func VerifC21MainChain(nOps int) {
 			cur ^= 1
 			status(cur)
 			verifReach("VerifC21MainChain:status-saved")
+		}
+	}
+}
+
+// VerifC21HeightIndex: the height index (block hashes by height) and the
+// main-chain index at height 1 through the real Store: every sequence of nOps
+// operations from {GetBlockHashesByHeight(1), SaveBlock of a further block at
+// height 1, GetMainChainHash(1), SaveChainStatus putting the first block on
+// the main chain}. Before any SaveChainStatus the blocks at height 1 are side
+// chain blocks: the main-chain read must fail exactly as the database read does.
+func VerifC21HeightIndex(nOps int) {
+	verifC21Table, verifC21HeaderTable, verifC21HashLists = nil, nil, nil
+	db := dbm.NewMemDB()
+	s := NewStore(db)
+	nBlocks := 0
+	block := func(k int) *types.Block {
+		return &types.Block{BlockHeader: types.BlockHeader{Version: 1, Height: 1, Timestamp: uint64(100 + k)}}
+	}
+
+	for op := 0; op < nOps; op++ {
+		switch verifChoice("op", 4) {
+		case 0:
+			got, err := s.GetBlockHashesByHeight(1)
+			fresh, ferr := GetBlockHashesByHeight(db, 1)
+			if ferr != nil {
+				panic("verif: fresh height index read failed")
+			}
+			verifAssert(err == nil, "height-index-read-succeeds")
+			if err != nil {
+				return
+			}
+			verifObserveU64("indexed", uint64(len(got)))
+			verifAssert(len(got) == len(fresh), "height-index-read-equals-fresh-count")
+			if len(got) != len(fresh) {
+				return
+			}
+			for i := range got {
+				verifAssert(*got[i] == *fresh[i], "height-index-read-equals-fresh-hashes")
+			}
+			verifReach("VerifC21HeightIndex:index-read")
+		case 1:
+			if err := s.SaveBlock(block(nBlocks)); err != nil {
+				panic("verif: SaveBlock failed")
+			}
+			nBlocks++
+			verifReach("VerifC21HeightIndex:block-saved")
+		case 2:
+			got, err := s.GetMainChainHash(1)
+			fresh, ferr := GetMainChainHash(db, 1)
+			verifObserveBool("onMainChain", err == nil)
+			verifAssert((err == nil) == (ferr == nil), "main-chain-hash-read-fails-iff-fresh-read-fails")
+			if err == nil && ferr == nil {
+				verifAssert(*got == *fresh, "main-chain-hash-read-equals-fresh")
+			}
+			verifReach("VerifC21HeightIndex:main-chain-read")
+		case 3:
+			h := &block(0).BlockHeader
+			fin := h.Hash()
+			if err := s.SaveChainStatus(h, []*types.BlockHeader{h}, state.NewUtxoViewpoint(), state.NewContractViewpoint(), 0, &fin); err != nil {
+				panic("verif: SaveChainStatus failed")
+			}
+			verifReach("VerifC21HeightIndex:status-saved")
 		}
 	}
 }
